@@ -100,6 +100,9 @@ def check(ctx: Ctx) -> None:
     # step added elsewhere (maintenance API, begin_transaction, __init__) deletes on its own judgement, outside the rollback rules
     from .c09 import r3 as c09_r3
     ctx.shared(c09_r3, "C09.R3", "C04.R8", "files of retained snapshots survive failed commits only if nobody else deletes")
+    # "including lock release": a release whose delete failed must still let the lock expire, or the table accepts no further commit
+    from .c19 import release_always_lets_go
+    release_always_lets_go(ctx, "C04.R9")
 
 
 # ----------------------------------------------------------------------- R1
